@@ -131,6 +131,7 @@ def _split_args(s):
 # --------------------------------------------------------------------------- source access
 
 _src_cache = {}
+REQ_FNS = set()   # names of contracted functions that carry a `requires` (filled by a pre-pass)
 
 
 def read_src(rel):
@@ -887,11 +888,13 @@ def emit_fn(d, unit, report, canaries):
             counts['R17'] = counts.get('R17', 0) + 1
             info.setdefault('opaque_regions', []).append(dropped)
     n_builtin = count_builtin(body)
+    n_calls = count_call_sites(body)
     body = weave_body(body, d, fname)
     entry['rules'] = counts
     entry.update(info)
     entry['verbatim'] = (sum(counts.values()) == 0)
     entry['builtin_sites'] = n_builtin
+    entry['call_site_preconditions'] = n_calls
     entry['ensures'] = count_clauses(spec_txt, 'ensures')
     entry['requires'] = count_clauses(spec_txt, 'requires')
     entry['invariants'] = sum(count_clauses('\n'.join(t), 'invariant') for (n, _, t) in d.sections if n == 'loop')
@@ -968,7 +971,38 @@ def count_builtin(body):
     return n
 
 
+def prepass(world_files):
+    """collect the names of functions whose contract has a precondition: a call of one of them is a call-site obligation"""
+    REQ_FNS.clear()
+    for wf in world_files:
+        for seg in parse_template(wf):
+            if isinstance(seg, str):
+                for m in re.finditer(r'fn\s+(\w+)[^{;]*?\brequires\b', seg, flags=re.S):
+                    REQ_FNS.add(m.group(1))
+            elif seg.kind in ('fn', 'block'):
+                spec = '\n'.join('\n'.join(t) for (n, _, t) in seg.sections if n == 'spec')
+                if re.search(r'\brequires\b', spec):
+                    nm = seg.args[1].split('::')[-1] if seg.kind == 'fn' else seg.args[2]
+                    REQ_FNS.add(seg.opt('as') or nm)
+            elif seg.kind == 'handlerstubs':
+                ungated = set((seg.opt('ungated') or '').split(','))
+                skip = set((seg.opt('skip') or '').split(','))
+                for rel in (seg.opt('files') or '').split(','):
+                    for it in rustlex.items(read_src(rel)):
+                        if it.kind == 'fn' and it.owner == 'MainState' and it.name.startswith('process_') and it.name not in skip and it.name not in ungated:
+                            REQ_FNS.add(it.name)
+
+
+def count_call_sites(body):
+    b = re.sub(r'//.*', '', body)
+    n = 0
+    for name in REQ_FNS:
+        n += len(re.findall(r'[\.:\s]%s\s*\(' % re.escape(name), b))
+    return n
+
+
 def build_unit(world_files, unit, outdir):
+    prepass(world_files)
     report = {'unit': unit, 'fns': [], 'types': [], 'linemap': []}
     main_lines = []
     linemap = []
